@@ -253,7 +253,26 @@ def _try(lit):
 
 
 def sweep():
-    return [_try(l) for l in _lits()] + [_try_float(l) for l in _FLOATS]
+    return [_try(l) for l in _lits()] + [_try_float(l) for l in _FLOATS] + [_try_program(p) for p in _PROGRAMS]
+
+
+# whole programs whose formatted text must compile to the same SQL: interpolated strings with white space in front of an embedded line break, CRLF, trailing blanks in s-strings
+# (the code generator writes the text of s- / f-strings with real line breaks: nothing after it may treat the output as lines of code - round-6 seed C14-12)
+_PROGRAMS = ['from t\nselect {label = f"{a}: \\n{b}", a}\nsort a\n', 'from t\nselect {x = s"CONCAT({a}, \' \\n\')"}\n', 'from t\nselect {label = f"{a}\\t\\n{b}\\r\\n"}\n',
+             "let a\nlet b <int>\nfrom t\nselect {c = a + b}\n"]
+
+
+def _try_program(src):
+    import replaylib
+    rec = {"obligation": "fmt_strings.EQ1", "input": src, "replay_kind": "fmt_program", "expected": "fmt output compiles to the same SQL"}
+    ok0, sql0 = replaylib.compile_prql(src, "sql.generic")
+    okf, f1 = _fmt(src)
+    if not (ok0 and okf):
+        rec.update(failing=ok0 and not okf, observed=(f1 if not okf else sql0)[:200])
+        return rec
+    ok1, sql1 = replaylib.compile_prql(f1, "sql.generic")
+    rec.update(failing=not (ok1 and sql1 == sql0), observed="same SQL" if ok1 and sql1 == sql0 else "formatted %r -> %s" % (f1[:120], (sql1 or "")[:160]))
+    return rec
 
 
 _FLOATS = ["13.0", "1.0", "1e3", "0.5e1", "1e20", "6.022e23", "2.5", "1e-7"]
@@ -289,6 +308,8 @@ def replay(failure):
 
 
 def rerun(doc):
+    if doc.get("replay_kind") == "fmt_program":
+        return _try_program(doc["input"])
     if doc.get("replay_kind") == "fmt_float":
         return _try_float(doc["lit"])
     return _try(doc["lit"])
